@@ -1,7 +1,8 @@
 (* ConnProofsB0.v — C07: observed traces of the implementation (recorded by
-   go/cmd/brokerconn, family c07) as witnesses: the refutation of c07_single_ack
-   and the non-vacuity examples of the C07 theorems.  Everything here is by
-   computation. *)
+   go/cmd/brokerconn, family c07) and constructed traces as witnesses: the
+   refutations of c07_no_publish_after_release and c07_single_ack for backends that
+   acknowledge late, and the non-vacuity examples of the C07 theorems.
+   Everything here is by computation. *)
 From Coq Require Import List NArith Bool.
 From Coq.Strings Require Import Byte.
 From GM Require Import Base.Lts Codec.Packet Session.Store Broker.Conn Broker.ConnSpec.
@@ -11,12 +12,14 @@ Open Scope N_scope.
 Definition accepted (es : list event) : bool :=
   match bc_run es with Some _ => true | None => false end.
 
-(* scenario c07/P1.R1, synchronous backend: a full QoS 2 handshake *)
-(* scenario c07/P1.R1.R1: the retransmitted PUBREL is answered directly with PUBCOMP *)
-(* scenario c07/pubcomp-write-fails: the PUBCOMP write fails, the client resumes the
-   session and retransmits PUBREL: answered directly, no second backend Publish *)
-(* scenario c07/late-ack-across-pubrel: the backend acknowledges late, the PUBREL is
-   processed again before the first acknowledgement: two acknowledged hand-overs *)
+(* observed traces:
+   tr_handshake             c07/P1.R1, synchronous backend: a full QoS 2 handshake
+   tr_pubrel_retx           c07/P1.R1.R1: the retransmitted PUBREL is answered directly with PUBCOMP
+   tr_pubcomp_write_fails   c07/pubcomp-write-fails: the PUBCOMP write fails, the client resumes the
+                            session and retransmits PUBREL: answered directly, no second backend Publish
+   tr_late_ack              c07/late-ack-across-pubrel: the backend acknowledges late, the PUBREL is
+                            processed again before the first acknowledgement: two hand-overs, both acknowledged
+   tr_delete_fails          c07/P1.R1.P1d-fq4: the closure's removal of the stored PUBLISH fails *)
 Definition tr_handshake : list event :=
   [ ENewConn;
     ERx 2 (Connect (Conn [x63] 0 [] [] false None 4));
@@ -34,7 +37,7 @@ Definition tr_handshake : list event :=
     EPub 2 (Msg [x74] [x01] 2 false) (Some 1);
     EAckCall 1 2;
     EDelete 2 Incoming 1 true;
-    EAckRet 1;
+    EAckRet 1 2;
     EPubRet 2 true;
     ETx 4 (Pubcomp 1) true true;
     EQuiescent;
@@ -61,7 +64,7 @@ Definition tr_pubrel_retx : list event :=
     EPub 2 (Msg [x74] [x01] 2 false) (Some 1);
     EAckCall 1 2;
     EDelete 2 Incoming 1 true;
-    EAckRet 1;
+    EAckRet 1 2;
     EPubRet 2 true;
     ETx 4 (Pubcomp 1) true true;
     ERx 2 (Pubrel 1);
@@ -91,7 +94,7 @@ Definition tr_pubcomp_write_fails : list event :=
     EPub 2 (Msg [x74] [x01] 2 false) (Some 1);
     EAckCall 1 2;
     EDelete 2 Incoming 1 true;
-    EAckRet 1;
+    EAckRet 1 2;
     EPubRet 2 true;
     ETx 4 (Pubcomp 1) true false;
     EDie 4 KTransport;
@@ -142,11 +145,11 @@ Definition tr_late_ack : list event :=
     EPubRet 2 true;
     EAckCall 1 1;
     EDelete 1 Incoming 1 true;
-    EAckRet 1;
+    EAckRet 1 1;
     ETx 4 (Pubcomp 1) true true;
     EAckCall 2 1;
     EDelete 1 Incoming 1 true;
-    EAckRet 2;
+    EAckRet 2 1;
     ETx 4 (Pubcomp 1) true true;
     EQuiescent;
     ERxErr 2;
@@ -155,39 +158,58 @@ Definition tr_late_ack : list event :=
     EDeqRet 3 QNone;
     ETerm 5 true;
     EClosed ].
+Definition tr_delete_fails : list event :=
+  [ ENewConn;
+    ERx 2 (Connect (Conn [x63] 0 [] [] false None 4));
+    EAuth 2 AOk;
+    ESetup 2 (SOk false false 10 10 10);
+    ETx 2 (Connack false 0) false true;
+    EAll 2 Outgoing (Some []);
+    ERestore 2 true;
+    EDeqCall 3;
+    ERx 2 (Publish false (Msg [x74] [x01] 2 false) 1);
+    ESave 2 Incoming (Publish false (Msg [x74] [x01] 2 false) 1) true;
+    ETx 2 (Pubrec 1) true true;
+    ERx 2 (Pubrel 1);
+    ELookup 2 Incoming 1 (LRes (Some (Publish false (Msg [x74] [x01] 2 false) 1)));
+    EPub 2 (Msg [x74] [x01] 2 false) (Some 1);
+    EAckCall 1 2;
+    EDelete 2 Incoming 1 false;
+    EDie 2 KSession;
+    EConnClose 2;
+    EAckRet 1 2;
+    EPubRet 2 true;
+    EDeqRet 3 QNone;
+    ETerm 4 true;
+    EClosed ].
 
 Definition all_c07 (es : list event) : bool :=
-  c07_pubrec_after_store es && c07_no_publish_after_ack es && c07_pubrel_answered es.
+  c07_pubrec_after_store es && c07_no_publish_after_release es && c07_single_ack es && c07_pubrel_answered es.
 
 Example tr_handshake_ok :
-  accepted tr_handshake = true /\ all_c07 tr_handshake = true /\
-  sync_acks tr_handshake = true /\ c07_single_ack tr_handshake = true.
+  accepted tr_handshake = true /\ prompt_acks tr_handshake = true /\ all_c07 tr_handshake = true.
 Proof. vm_compute. repeat (split; try reflexivity). Qed.
 
 Example tr_pubrel_retx_ok :
-  accepted tr_pubrel_retx = true /\ all_c07 tr_pubrel_retx = true /\
-  sync_acks tr_pubrel_retx = true /\ c07_single_ack tr_pubrel_retx = true.
+  accepted tr_pubrel_retx = true /\ prompt_acks tr_pubrel_retx = true /\ all_c07 tr_pubrel_retx = true.
 Proof. vm_compute. repeat (split; try reflexivity). Qed.
 
 Example tr_pubcomp_write_fails_ok :
-  accepted tr_pubcomp_write_fails = true /\ all_c07 tr_pubcomp_write_fails = true /\
-  sync_acks tr_pubcomp_write_fails = true /\ c07_single_ack tr_pubcomp_write_fails = true.
+  accepted tr_pubcomp_write_fails = true /\ prompt_acks tr_pubcomp_write_fails = true /\
+  all_c07 tr_pubcomp_write_fails = true.
+Proof. vm_compute. repeat (split; try reflexivity). Qed.
+
+Example tr_delete_fails_ok :
+  accepted tr_delete_fails = true /\ prompt_acks tr_delete_fails = true /\ all_c07 tr_delete_fails = true.
 Proof. vm_compute. repeat (split; try reflexivity). Qed.
 
 Example tr_late_ack_ok :
-  accepted tr_late_ack = true /\ all_c07 tr_late_ack = true /\
-  sync_acks tr_late_ack = false /\ c07_single_ack tr_late_ack = false.
+  accepted tr_late_ack = true /\ prompt_acks tr_late_ack = false /\
+  c07_pubrec_after_store tr_late_ack = true /\ c07_pubrel_answered tr_late_ack = true /\
+  c07_no_publish_after_release tr_late_ack = true /\ c07_single_ack tr_late_ack = false.
 Proof. vm_compute. repeat (split; try reflexivity). Qed.
 
-(* c07_single_ack is FALSE of the model (and of the code: open known finding) *)
-Lemma single_ack_refuted : exists es s, bc_run es = Some s /\ c07_single_ack es = false.
-Proof.
-  destruct (bc_run tr_late_ack) as [s|] eqn:E.
-  - exists tr_late_ack, s. split; [exact E|vm_compute; reflexivity].
-  - vm_compute in E. discriminate E.
-Qed.
-
-(* ---- further refutations (constructed, accepted by the model) ---- *)
+(* ---- constructed traces (accepted by the model) ---- *)
 Definition m1 := Msg [x74] [x01] 2 false.
 Definition tr_pre : list event :=
   [ ENewConn;
@@ -204,34 +226,29 @@ Definition tr_pre : list event :=
     ELookup 2 Incoming 1 (LRes (Some (Publish false m1 1)));
     EPub 2 m1 (Some 1)].
 
-(* a late acknowledgement from another goroutine completes between the processor's
-   Lookup of the stored PUBLISH and its backend Publish for a retransmitted PUBREL *)
+(* a late acknowledgement from another goroutine releases the handshake between the
+   processor's Lookup of the stored PUBLISH and its backend Publish for a retransmitted PUBREL *)
 Definition tr_race := tr_pre ++ [
     EPubRet 2 true;
     ERx 2 (Pubrel 1);
     ELookup 2 Incoming 1 (LRes (Some (Publish false m1 1)));
-    EAckCall 1 9; EDelete 9 Incoming 1 true; EAckRet 1;
+    EAckCall 1 9; EDelete 9 Incoming 1 true; EAckRet 1 9;
     EPub 2 m1 (Some 2)].
 
-(* the closure has removed the PUBLISH and queued PUBCOMP but not yet returned when
-   the publisher starts a new handshake with the same id (a scanner artefact: q2
-   counts the acknowledgement at EAckRet) *)
-Definition tr_save_before_ackret := tr_pre ++ [
-    EPubRet 2 true; EAckCall 1 9; EDelete 9 Incoming 1 true;
-    ETx 4 (Pubcomp 1) true true;
-    ERx 2 (Publish false m1 1);
-    ESave 2 Incoming (Publish false m1 1) true;
-    ETx 2 (Pubrec 1) true true;
-    EAckRet 1;
+(* the same with the closure already invoked when the PUBREL is looked up again *)
+Definition tr_race_busy := tr_pre ++ [
+    EPubRet 2 true;
+    EAckCall 1 9;
     ERx 2 (Pubrel 1);
     ELookup 2 Incoming 1 (LRes (Some (Publish false m1 1)));
+    EDelete 9 Incoming 1 true; EAckRet 1 9;
     EPub 2 m1 (Some 2)].
 
 (* a synchronous backend; the closure's removal of the stored PUBLISH fails, the
    connection dies, the client resumes and retransmits PUBREL: a second backend
-   Publish, acknowledged again *)
+   Publish, acknowledged again; the handshake was never released, so this is allowed *)
 Definition tr_delfail_resume := tr_pre ++ [
-    EAckCall 1 2; EDelete 2 Incoming 1 false; EDie 2 KSession; EConnClose 2; EAckRet 1; EPubRet 2 true;
+    EAckCall 1 2; EDelete 2 Incoming 1 false; EDie 2 KSession; EConnClose 2; EAckRet 1 2; EPubRet 2 true;
     ETerm 4 true; EClosed; ENewConn;
     ERx 6 (Connect (Conn [x63] 0 [] [] false None 4));
     EAuth 6 AOk;
@@ -239,35 +256,28 @@ Definition tr_delfail_resume := tr_pre ++ [
     ETx 6 (Connack true 0) false true;
     EAll 6 Outgoing (Some []);
     ERestore 6 true;
+    EDeqCall 7;
     ERx 6 (Pubrel 1);
     ELookup 6 Incoming 1 (LRes (Some (Publish false m1 1)));
     EPub 6 m1 (Some 2);
-    EAckCall 2 6; EDelete 6 Incoming 1 true; EAckRet 2; EPubRet 6 true].
+    EAckCall 2 6; EDelete 6 Incoming 1 true; EAckRet 2 6; EPubRet 6 true;
+    ETx 8 (Pubcomp 1) true true; EQuiescent].
 
-(* the model lets a closure invoked on goroutine 2 linger while goroutine 2 goes on *)
-Definition tr_linger := tr_pre ++ [
-    EAckCall 1 2;
-    EPubRet 2 true;
-    ERx 2 (Pubrel 1);
-    ELookup 2 Incoming 1 (LRes (Some (Publish false m1 1)));
-    EDelete 2 Incoming 1 true; EAckRet 1;
-    EPub 2 m1 (Some 2)].
-
-(* EQuiescent is accepted by the model while the processor is in the middle of a PUBREL *)
-Definition tr_quiescent_midway := firstn 11 tr_pre ++ [EQuiescent].
+(* a backend that never acknowledges: quiescent with the PUBREL unanswered, allowed *)
+Definition tr_never_ack := tr_pre ++ [EPubRet 2 true; EDeqCall 3; EQuiescent].
 
 Example tr_race_ok :
-  accepted tr_race = true /\ c07_no_publish_after_ack tr_race = false /\ sync_acks tr_race = false.
+  accepted tr_race = true /\ prompt_acks tr_race = false /\ c07_no_publish_after_release tr_race = false.
 Proof. vm_compute. repeat (split; try reflexivity). Qed.
-Example tr_save_before_ackret_ok :
-  accepted tr_save_before_ackret = true /\ c07_no_publish_after_ack tr_save_before_ackret = false.
+Example tr_race_busy_ok :
+  accepted tr_race_busy = true /\ prompt_acks tr_race_busy = false /\
+  c07_no_publish_after_release tr_race_busy = false.
 Proof. vm_compute. repeat (split; try reflexivity). Qed.
 Example tr_delfail_resume_ok :
-  accepted tr_delfail_resume = true /\ sync_acks tr_delfail_resume = true /\
-  c07_no_publish_after_ack tr_delfail_resume = true /\ c07_single_ack tr_delfail_resume = false.
+  accepted tr_delfail_resume = true /\ prompt_acks tr_delfail_resume = true /\ all_c07 tr_delfail_resume = true.
 Proof. vm_compute. repeat (split; try reflexivity). Qed.
-Example tr_linger_ok :
-  accepted tr_linger = true /\ sync_acks tr_linger = true /\ c07_no_publish_after_ack tr_linger = false.
+Example tr_never_ack_ok :
+  accepted tr_never_ack = true /\ prompt_acks tr_never_ack = true /\ all_c07 tr_never_ack = true.
 Proof. vm_compute. repeat (split; try reflexivity). Qed.
 
 Lemma refute (P : list event -> bool) (es : list event) :
@@ -277,14 +287,10 @@ Proof.
   exists es, s. split; [exact E|exact Hp].
 Qed.
 
-Lemma no_publish_after_ack_refuted : exists es s, bc_run es = Some s /\ c07_no_publish_after_ack es = false.
+(* both exactly-once clauses are FALSE of the model (and of the code: open known
+   finding) when the backend acknowledges late *)
+Lemma single_ack_refuted : exists es s, bc_run es = Some s /\ c07_single_ack es = false.
+Proof. apply (refute _ tr_late_ack); vm_compute; reflexivity. Qed.
+Lemma no_publish_after_release_refuted :
+  exists es s, bc_run es = Some s /\ c07_no_publish_after_release es = false.
 Proof. apply (refute _ tr_race); vm_compute; reflexivity. Qed.
-(*Lemma pubrel_answered_refuted : exists es s, bc_run es = Some s /\ c07_pubrel_answered es = false.
-Proof. apply (refute _ tr_quiescent_midway); vm_compute; reflexivity. Qed.*)
-Lemma single_ack_sync_refuted :
-  exists es s, bc_run es = Some s /\ (sync_acks es && negb (c07_single_ack es)) = true.
-Proof.
-  destruct (refute (fun es => negb (sync_acks es && negb (c07_single_ack es))) tr_delfail_resume) as (es & s & H1 & H2);
-    [vm_compute; reflexivity|vm_compute; reflexivity|].
-  exists es, s. split; [exact H1|]. apply negb_false_iff in H2. exact H2.
-Qed.
